@@ -3,6 +3,7 @@
 -/
 import VotelibProofs.Lemmas.ConvertSum
 import Mathlib.Data.List.Sort
+import Mathlib.Algebra.BigOperators.Ring.List
 namespace VL.Convert
 open VL
 
@@ -157,6 +158,31 @@ theorem mem_canonBy (y : α) (l : List α) : y ∈ canonBy le l ↔ y ∈ l := b
 
 end
 
+theorem insertSet_map {α' : Type} [DecidableEq α] [DecidableEq α'] (le : α → α → Bool) (le' : α' → α' → Bool)
+    (f : α → α') (hf : Function.Injective f) (hle : ∀ a b, le' (f a) (f b) = le a b) (x : α) (l : List α) :
+    insertSet le' (f x) (l.map f) = (insertSet le x l).map f := by
+  induction l with
+  | nil => simp [insertSet]
+  | cons a t ih =>
+    simp only [List.map_cons, insertSet, hle]
+    by_cases h1 : x = a
+    · subst h1; simp
+    · have : f x ≠ f a := fun e => h1 (hf e)
+      simp only [h1, this, if_false]
+      by_cases h2 : le x a = true
+      · simp [h2]
+      · simp [h2, ih]
+
+theorem canonBy_map {α' : Type} [DecidableEq α] [DecidableEq α'] (le : α → α → Bool) (le' : α' → α' → Bool)
+    (f : α → α') (hf : Function.Injective f) (hle : ∀ a b, le' (f a) (f b) = le a b) (l : List α) :
+    canonBy le' (l.map f) = (canonBy le l).map f := by
+  induction l with
+  | nil => simp [canonBy]
+  | cons a t ih =>
+    have e1 : canonBy le' ((a :: t).map f) = insertSet le' (f a) (canonBy le' (t.map f)) := rfl
+    have e2 : canonBy le (a :: t) = insertSet le a (canonBy le t) := rfl
+    rw [e1, e2, ih, insertSet_map le le' f hf hle]
+
 /-- `canonSet` produces strictly increasing lists -/
 theorem sorted_insertSet (x : Nat) {l : List Nat} (h : l.Pairwise (· < ·)) :
     (insertSet Nat.ble x l).Pairwise (· < ·) := by
@@ -212,5 +238,278 @@ theorem canonSet_eq_iff (l₁ l₂ : List Cand) : canonSet l₁ = canonSet l₂ 
 theorem canonSet_of_sorted {l : List Cand} (h : l.Pairwise (· < ·)) : canonSet l = l := by
   apply (sorted_canonSet l).eq_of_mem_iff h
   intro c; rw [mem_canonSet]
+
+/-! ### counting -/
+
+/-- number of occurrences, as a rational -/
+def cnt {α : Type} [DecidableEq α] (l : List α) (k : α) : Rat := ((l.count k : Nat) : Rat)
+
+section
+variable {α : Type} [DecidableEq α]
+@[simp] theorem cnt_nil (k : α) : cnt ([] : List α) k = 0 := by simp [cnt]
+theorem cnt_cons (a : α) (l : List α) (k : α) : cnt (a :: l) k = (if a = k then 1 else 0) + cnt l k := by
+  unfold cnt
+  rw [List.count_cons]
+  by_cases h : a = k
+  · subst h; simp; ring
+  · have : (a == k) = false := by simpa using h
+    simp [h, this]
+theorem cnt_append (l₁ l₂ : List α) (k : α) : cnt (l₁ ++ l₂) k = cnt l₁ k + cnt l₂ k := by
+  simp [cnt, List.count_append]
+theorem cnt_nonneg (l : List α) (k : α) : 0 ≤ cnt l k := by simp [cnt]
+theorem cnt_of_nodup {l : List α} (h : l.Nodup) (k : α) : cnt l k = if k ∈ l then 1 else 0 := by
+  unfold cnt
+  by_cases hk : k ∈ l
+  · rw [if_pos hk, List.count_eq_one_of_mem h hk]; simp
+  · rw [if_neg hk, List.count_eq_zero_of_not_mem hk]; simp
+theorem cnt_eq_zero {l : List α} {k : α} (h : k ∉ l) : cnt l k = 0 := by
+  simp [cnt, List.count_eq_zero_of_not_mem h]
+theorem cnt_le_one {l : List α} (h : l.Nodup) (k : α) : cnt l k ≤ 1 := by
+  rw [cnt_of_nodup h]; split <;> norm_num
+theorem cnt_flatMap {γ : Type} (l : List γ) (f : γ → List α) (k : α) :
+    cnt (l.flatMap f) k = (l.map (fun x => cnt (f x) k)).sum := by
+  induction l with
+  | nil => simp
+  | cons a t ih => rw [List.flatMap_cons, cnt_append, ih]; simp
+theorem cnt_perm {l₁ l₂ : List α} (h : l₁.Perm l₂) (k : α) : cnt l₁ k = cnt l₂ k := by
+  simp [cnt, h.count_eq]
+end
+
+/-- `for c in l: agg[c] += v` -/
+theorem toFun_foldl_addTo_const [DecidableEq κ] (l : List κ) (v : Rat) (acc : Dict κ) (k : κ) :
+    toFun (l.foldl (fun agg c => addTo agg c v) acc) k = toFun acc k + v * cnt l k := by
+  induction l generalizing acc with
+  | nil => simp
+  | cons a t ih =>
+    rw [List.foldl_cons, ih, toFun_addTo, cnt_cons]
+    by_cases h : a = k
+    · simp [h]; ring
+    · simp [h]
+
+theorem total_foldl_addTo_const [DecidableEq κ] (l : List κ) (v : Rat) (acc : Dict κ) :
+    total (l.foldl (fun agg c => addTo agg c v) acc) = total acc + v * (l.length : Rat) := by
+  induction l generalizing acc with
+  | nil => simp
+  | cons a t ih =>
+    rw [List.foldl_cons, ih, total_addTo]; push_cast [List.length_cons]; ring
+
+theorem nodup_foldl_addTo_const [DecidableEq κ] (l : List κ) (v : Rat) {acc : Dict κ} (h : (dkeys acc).Nodup) :
+    (dkeys (l.foldl (fun agg c => addTo agg c v) acc)).Nodup := by
+  induction l generalizing acc with
+  | nil => exact h
+  | cons a t ih => exact ih (nodup_dkeys_addTo h _ _)
+
+/-! ### sums over two lists and over rank positions -/
+
+theorem sum_comm_lists {α β : Type} (l : List α) (m : List β) (f : α → β → Rat) :
+    (l.map (fun a => (m.map (fun b => f a b)).sum)).sum = (m.map (fun b => (l.map (fun a => f a b)).sum)).sum := by
+  induction l with
+  | nil => simp
+  | cons a t ih =>
+    simp only [List.map_cons, List.sum_cons]
+    rw [ih, ← List.sum_map_add]
+
+theorem sum_range_getElem? {γ : Type} (b : List γ) (g : Option γ → Rat) (hg : g none = 0) (n : Nat)
+    (h : b.length ≤ n) : ((List.range n).map (fun i => g b[i]?)).sum = (b.map (fun x => g (some x))).sum := by
+  induction b generalizing n with
+  | nil =>
+    simp only [List.getElem?_nil, hg, List.map_nil, List.sum_nil]
+    apply List.sum_eq_zero; intro x hx; simp at hx; exact hx.2.symm ▸ rfl
+  | cons x t ih =>
+    obtain ⟨n', rfl⟩ : ∃ n', n = n' + 1 := ⟨n - 1, by simp at h; omega⟩
+    rw [List.range_succ_eq_map]
+    simp only [List.map_cons, List.sum_cons, List.map_map, List.getElem?_cons_zero]
+    congr 1
+    have := ih n' (by simp at h; omega)
+    rw [← this]
+    congr 1
+
+theorem sum_flatMap' {α : Type} (l : List α) (f : α → List Rat) :
+    (l.flatMap f).sum = (l.map (fun x => (f x).sum)).sum := by
+  induction l with
+  | nil => simp
+  | cons a t ih => rw [List.flatMap_cons, List.sum_append, ih]; simp
+
+theorem sum_map_one {α : Type} (l : List α) : (l.map (fun _ => (1 : Rat))).sum = (l.length : Rat) := by
+  induction l with
+  | nil => simp
+  | cons a t ih => rw [List.map_cons, List.sum_cons, ih]; push_cast [List.length_cons]; ring
+
+theorem toFun_flatMap [DecidableEq κ] {α : Type} (l : List α) (f : α → Dict κ) (k : κ) :
+    toFun (l.flatMap f) k = (l.map (fun x => toFun (f x) k)).sum := by
+  induction l with
+  | nil => simp
+  | cons a t ih => rw [List.flatMap_cons, toFun_append, ih]; simp
+
+/-! ### util.all_rankings -/
+
+theorem le_foldl_max (p : RProfile) (m : Nat) :
+    m ≤ p.foldl (fun m bw => max m bw.1.length) m ∧
+    ∀ bw ∈ p, bw.1.length ≤ p.foldl (fun m bw => max m bw.1.length) m := by
+  induction p generalizing m with
+  | nil => simp
+  | cons a t ih =>
+    rw [List.foldl_cons]
+    obtain ⟨h1, h2⟩ := ih (max m a.1.length)
+    refine ⟨le_trans (le_max_left _ _) h1, ?_⟩
+    intro bw hbw
+    rcases List.mem_cons.1 hbw with rfl | hbw
+    · exact le_trans (le_max_right _ _) h1
+    · exact h2 bw hbw
+
+theorem length_le_maxLen {p : RProfile} {bw : Ballot × Rat} (h : bw ∈ p) : bw.1.length ≤ maxLen p :=
+  (le_foldl_max p 0).2 bw h
+
+/-- occurrences of candidate `k` on a ballot (all ranks, shared or not) -/
+def presence (b : Ballot) (k : Cand) : Rat := cnt (ballotCands b) k
+
+theorem presence_eq_sum (b : Ballot) (k : Cand) : presence b k = (b.map (fun it => cnt it.cands k)).sum := by
+  unfold presence ballotCands; rw [cnt_flatMap]
+
+theorem sum_indicator_eq_cnt {α : Type} [DecidableEq α] (l : List α) (k : α) :
+    (l.map (fun c => if c = k then (1 : Rat) else 0)).sum = cnt l k := by
+  induction l with
+  | nil => simp
+  | cons a t ih => rw [List.map_cons, List.sum_cons, ih, cnt_cons]
+
+/-- `all_rankings` visits every (candidate occurrence, ballot) pair exactly once: any weighted sum over
+    its output is the sum over the ballots of the sum over their candidates -/
+theorem sum_allRankings (p : RProfile) (g : Cand → Rat) :
+    ((allRankings p).map (fun t => t.2.2 * g t.1)).sum = wsum p (fun b => ((ballotCands b).map g).sum) := by
+  unfold allRankings
+  rw [List.map_flatMap, sum_flatMap']
+  have h1 : ∀ i, (List.map (fun t : Cand × Nat × Rat => t.2.2 * g t.1) (p.flatMap (rankingsAt i))).sum
+      = (p.map (fun bw => bw.2 * (match bw.1[i]? with | some it => (it.cands.map g).sum | none => 0))).sum := by
+    intro i
+    rw [List.map_flatMap, sum_flatMap']
+    congr 1
+    apply List.map_congr_left
+    intro bw _
+    unfold rankingsAt
+    cases bw.1[i]? with
+    | none => simp
+    | some it =>
+      simp only [List.map_map]
+      rw [← List.sum_map_mul_left]
+      rfl
+  simp only [h1]
+  rw [sum_comm_lists]
+  unfold wsum
+  congr 1
+  apply List.map_congr_left
+  intro bw hbw
+  rw [List.sum_map_mul_left]
+  congr 1
+  have : ((ballotCands bw.1).map g).sum = (bw.1.map (fun it => (it.cands.map g).sum)).sum := by
+    unfold ballotCands
+    rw [List.map_flatMap, sum_flatMap']
+  show _ = ((ballotCands bw.1).map g).sum
+  rw [this]
+  exact sum_range_getElem? bw.1 (fun o => match o with | some it => (it.cands.map g).sum | none => 0) rfl _
+    (length_le_maxLen hbw)
+
+theorem toFun_allRankings (p : RProfile) (k : Cand) :
+    toFun ((allRankings p).map (fun t => (t.1, t.2.2))) k = wsum p (fun b => presence b k) := by
+  have := sum_allRankings p (fun c => if c = k then 1 else 0)
+  simp only [sum_indicator_eq_cnt] at this
+  rw [← show wsum p (fun b => cnt (ballotCands b) k) = wsum p (fun b => presence b k) from rfl, ← this]
+  unfold toFun
+  rw [List.map_map]
+  congr 1
+  apply List.map_congr_left
+  intro t _
+  simp only [Function.comp]
+  by_cases h : t.1 = k <;> simp [h]
+
+theorem total_allRankings (p : RProfile) :
+    total ((allRankings p).map (fun t => (t.1, t.2.2))) = wsum p (fun b => ((ballotCands b).length : Rat)) := by
+  have := sum_allRankings p (fun _ => 1)
+  simp only [sum_map_one, mul_one] at this
+  rw [← this]
+  unfold total
+  rw [List.map_map]
+  rfl
+
+/-! ### folds in `Except` -/
+
+theorem foldlM_ok_of_step {σ α : Type} (step : σ → α → Except Err σ) (pstep : σ → α → σ) (l : List α)
+    (h : ∀ s a, a ∈ l → step s a = .ok (pstep s a)) (s0 : σ) :
+    l.foldlM step s0 = .ok (l.foldl pstep s0) := by
+  induction l generalizing s0 with
+  | nil => rfl
+  | cons a t ih =>
+    rw [List.foldlM_cons, h s0 a (by simp), List.foldl_cons]
+    exact ih (fun s a' ha' => h s a' (by simp [ha'])) _
+
+theorem foldlM_error_of_step {σ α : Type} (step : σ → α → Except Err σ) (e : Err) (l : List α)
+    (h : ∀ s a, a ∈ l → (∃ s', step s a = .ok s') ∨ step s a = .error e)
+    (hex : ∃ a ∈ l, ∀ s, step s a = .error e) (s0 : σ) :
+    l.foldlM step s0 = .error e := by
+  induction l generalizing s0 with
+  | nil => simp at hex
+  | cons a t ih =>
+    rw [List.foldlM_cons]
+    rcases h s0 a (by simp) with ⟨s', hs⟩ | herr
+    · rw [hs]
+      obtain ⟨a', ha', hall⟩ := hex
+      rcases List.mem_cons.1 ha' with rfl | ha'
+      · rw [hall] at hs; cases hs
+      · exact ih (fun s a'' ha'' => h s a'' (by simp [ha''])) ⟨a', ha', hall⟩ _
+    · rw [herr]; rfl
+
+/-! ### ApprovalToSimpleVotes -/
+
+/-- the documented image of one approval ballot: one vote (or an equal share) per approved candidate -/
+def approvalImage (split : Bool) (b : Approval) (c : Cand) : Rat :=
+  if split then cnt b c / (b.length : Rat) else cnt b c
+
+/-- pure step of the converter -/
+def approvalStep (split : Bool) (agg : Dict Cand) (bw : Approval × Rat) : Dict Cand :=
+  bw.1.foldl (fun agg c => addTo agg c (if split then bw.2 / (bw.1.length : Rat) else bw.2)) agg
+
+theorem approvalToSimple_eq_ok (split : Bool) (p : AProfile)
+    (h : split = true → ∀ bw ∈ p, bw.1 ≠ []) :
+    approvalToSimple split p = .ok (p.foldl (approvalStep split) []) := by
+  unfold approvalToSimple
+  apply foldlM_ok_of_step
+  intro s bw hbw
+  cases split with
+  | false => simp [approvalStep]
+  | true =>
+    have := h rfl bw hbw
+    have hl : bw.1.length ≠ 0 := by simpa using this
+    simp [approvalStep, hl]
+
+theorem approvalToSimple_eq_error (p : AProfile) (h : ∃ bw ∈ p, bw.1 = []) :
+    approvalToSimple true p = .error (.other "ZeroDivisionError") := by
+  unfold approvalToSimple
+  apply foldlM_error_of_step
+  · intro s bw _
+    by_cases hl : bw.1.length = 0
+    · right; simp [hl]
+    · left; simp [hl]
+  · obtain ⟨bw, hbw, he⟩ := h
+    exact ⟨bw, hbw, fun s => by simp [he]⟩
+
+theorem toFun_approvalStep (split : Bool) (acc : Dict Cand) (bw : Approval × Rat) (k : Cand) :
+    toFun (approvalStep split acc bw) k = toFun acc k + bw.2 * approvalImage split bw.1 k := by
+  unfold approvalStep approvalImage
+  rw [toFun_foldl_addTo_const]
+  cases split
+  · simp
+  · simp; ring
+
+theorem total_approvalStep (split : Bool) (acc : Dict Cand) (bw : Approval × Rat) (h : split = true → bw.1 ≠ []) :
+    total (approvalStep split acc bw) = total acc + bw.2 * (if split then 1 else (bw.1.length : Rat)) := by
+  unfold approvalStep
+  rw [total_foldl_addTo_const]
+  cases split with
+  | false => simp
+  | true =>
+    have hl : (bw.1.length : Rat) ≠ 0 := by
+      have := h rfl
+      simpa using this
+    simp only [if_true]
+    rw [div_mul_cancel₀ _ hl, mul_one]
 
 end VL.Convert
